@@ -58,6 +58,7 @@ type c05Ex struct {
 	Name     string `json:"qname"`
 	CallerID uint16 `json:"caller_id"`
 	Beh      string `json:"behaviour"`
+	Oversize bool   `json:"oversize_query,omitempty"`
 	Deadline int    `json:"deadline_ms"`
 	CancelUs int    `json:"cancel_after_us"` // <0: never
 	TCall    int64  `json:"t_call_ns"`
@@ -183,6 +184,12 @@ func c05Plan(seed int64, idx int) (c05Params, []*c05Ex) {
 		beh := prof.pick(r)
 		if p.Framing == "udp" && beh == "half" {
 			beh = "garbage"
+		}
+		if p.Framing == "udp" && r.P(0.04) {
+			// a query beyond the size of a UDP datagram: the write fails (EMSGSIZE), the connection
+			// stays; the wire id taken for it must not come back
+			beh = "oversize"
+			ex.Oversize = true
 		}
 		ex.Beh = beh
 		a := scripted.Action{Tag: beh}
@@ -376,6 +383,9 @@ func c05History(c *Ctx, idx int) {
 
 func c05Do(tr *transport.PipelineTransport, ex *c05Ex) {
 	q := scripted.BuildQuery(ex.CallerID, ex.Name, 28, 1)
+	if ex.Oversize {
+		q = append(q, make([]byte, 65600)...)
+	}
 	ctx, cancel := context.WithTimeout(context.Background(), time.Duration(ex.Deadline)*time.Millisecond)
 	var tm *time.Timer
 	if ex.CancelUs >= 0 {
